@@ -217,7 +217,7 @@ def _validate(out, traces, tdir, cov):
 
 
 def _expect_violation(cfg, inv_names, what):
-    r = C.tlc("XSerGraph", cfg, workers=4, timeout=TMO, heap="6g")
+    r = C.tlc("XSerGraph", cfg, workers=4, timeout=TMO, heap="6g", extra=("-noGenerateSpecTE",))   # no *_TTrace_* files in spec/
     if r.ok or not r.violated or not any(n in str(r.violated) for n in inv_names):
         raise C.InfraError("negative configuration %s should violate %s but: ok=%s violated=%s" % (cfg, inv_names, r.ok, r.violated))
     return dict(cfg=cfg, violated=str(r.violated), what=what, states=r.distinct)
